@@ -69,6 +69,8 @@ def harvest_texts():
     # by the runtime dump (property default values) can be any string
     out = {'doc': {}, 'pdoc': {}, 'tdoc': {}, 'version': {}, 'stability': {}, 'attr': {},
            'raw': dict((k, v.replace('\n *', '\n')) for k, v in TEXT_CLASSES.items())}
+    out['raw']['zero'] = '0'        # "present with value 0 / empty" must stay distinct from "absent"
+    out['raw']['empty'] = ''
     parser = GtkDocCommentBlockParser()
     for cls, v in TEXT_CLASSES.items():
         first = v.split('\n')[0]
@@ -207,6 +209,8 @@ def b_alias(o):
         tgt = ast.Array(None, INT(), ctype='int*')
     elif o('target_foreignns'):
         tgt = ast.Type(target_giname='GLib.Quark', ctype='GQuark')
+    elif o('target_prefixns'):
+        tgt = ast.Type(target_giname='FooDep.Thing', ctype='FooDepThing')
     a = ast.Alias('Al', tgt, 'FooAl' if not o('no_ctype') else None)
     ns.append(generic(o, a))
     return ns
@@ -220,6 +224,8 @@ def b_constant(o):
         c = ast.Constant('C', ast.Type(target_fundamental='gboolean', ctype='gboolean'), 'true', 'FOO_C')
     elif o('double'):
         c = ast.Constant('C', ast.Type(target_fundamental='gdouble', ctype='gdouble'), '1.500000', 'FOO_C')
+    elif o('zero'):
+        c = ast.Constant('C', INT(), '0', 'FOO_C')
     else:
         c = ast.Constant('C', INT(), '-5', 'FOO_C')
     ns.append(generic(o, c))
@@ -253,7 +259,8 @@ def b_bitfield(o):
 
 def b_member(o):
     ns = new_ns()
-    m = ast.Member('a', '1', 'FOO_E_A', 'nick-a' if o('nick') else None, 'FOO_E_A' if o('dump_name') else None)
+    m = ast.Member('a', 0 if o('zero') else '1', 'FOO_E_A', 'nick-a' if o('nick') else None,
+                   'FOO_E_A' if o('dump_name') else None)
     generic(o, m, node_level=True)
     e = ast.Enum('E', 'FooE', members=[m, ast.Member('b', 2, 'FOO_E_B')])
     ns.append(e)
@@ -373,7 +380,9 @@ def b_macro(o):
 
 TYPE_SHAPES = ['int', 'utf8', 'local', 'foreign', 'unresolved', 'carray', 'carray_len', 'carray_fixed', 'carray_nozero',
                'carray_zero_len', 'garray', 'ptrarray', 'bytearray', 'list', 'slist', 'list_nested', 'map', 'map_bare',
-               'varargs', 'array_of_array', 'noctype', 'complete_ctype', 'garray_fixed', 'ptrarray_len']
+               'varargs', 'array_of_array', 'noctype', 'complete_ctype', 'garray_fixed', 'ptrarray_len',
+               'carray_fixed0', 'carray_fixed1', 'garray_fixed0', 'prefix_ns', 'prefix_ns_list', 'prefix_ns_array',
+               'prefix_ns_map', 'prefix_ns_noctype']
 
 
 def type_shape(shape):
@@ -412,6 +421,28 @@ def type_shape(shape):
         return a, True
     if shape == 'garray':
         return ast.Array('GLib.Array', INT(), ctype='GArray*'), False
+    if shape in ('carray_fixed0', 'carray_fixed1'):     # char data[0]; / (array fixed-size=0)
+        a = ast.Array(None, ast.Type(target_fundamental='gchar', ctype='char'), ctype='char*')
+        a.zeroterminated = False
+        a.size = 0 if shape.endswith('0') else 1
+        return a, False
+    if shape == 'garray_fixed0':
+        a = ast.Array('GLib.Array', ast.Type(target_fundamental='gint'), ctype='GArray*')
+        a.zeroterminated = False
+        a.size = 0
+        return a, False
+    # the written namespace is Foo; FooDep / FooBar are OTHER namespaces whose names start with "Foo"
+    if shape == 'prefix_ns':
+        return ast.Type(target_giname='FooDep.Thing', ctype='FooDepThing*'), False
+    if shape == 'prefix_ns_noctype':
+        return ast.Type(target_giname='FooBar.Rec'), False
+    if shape == 'prefix_ns_list':
+        return ast.List('GLib.List', ast.Type(target_giname='FooDep.Thing', ctype='FooDepThing*'), ctype='GList*'), False
+    if shape == 'prefix_ns_array':
+        return ast.Array(None, ast.Type(target_giname='FooDep.Thing', ctype='FooDepThing*'), ctype='FooDepThing**'), False
+    if shape == 'prefix_ns_map':
+        return ast.Map(ast.Type(target_giname='FooBar.Key', ctype='FooBarKey*'),
+                       ast.Type(target_giname='FooDep.Thing', ctype='FooDepThing*'), ctype='GHashTable*'), False
     if shape == 'garray_fixed':          # (array fixed-size=4) (element-type int) on a GArray*
         a = ast.Array('GLib.Array', ast.Type(target_fundamental='gint'), ctype='GArray*')
         a.zeroterminated = False
@@ -461,7 +492,7 @@ def b_parameter(o, shape='int'):
     others = [ast.Parameter('n', INT(), direction='in', transfer='none'),
               ast.Parameter('data', PTR(), direction='in', transfer='none')]
     if o('closure'):
-        p.closure_name = 'data'
+        p.closure_name = 'n' if o('closure_first') else 'data'      # with 'last': index 0
     if o('destroy'):
         p.destroy_name = 'n'
     if o('param_skip'):
@@ -557,7 +588,7 @@ def b_field(o, shape='int'):
     ns = new_ns()
     r = ast.Record('Rec', ctype='FooRec')
     t, needs_len = type_shape(shape)
-    f = ast.Field('f', t, not o('not_readable'), o('writable'), 3 if o('bits') else None)
+    f = ast.Field('f', t, not o('not_readable'), o('writable'), (1 if o('bits_one') else 3) if o('bits') else None)
     if o('private'):
         f.private = True
     generic(o, f, node_level=False)
@@ -626,8 +657,13 @@ def b_class(o, iface=False):
             c.prerequisites.append(ast.Type(target_giname='GObject.Object'))
         if o('prerequisite2'):
             c.prerequisites.append(ast.Type(target_giname='Foo.Another'))
+        if o('prerequisite_prefixns'):
+            c.prerequisites.append(ast.Type(target_giname='FooDep.Obj'))
     else:
-        c = ast.Class('Obj', ast.Type(target_giname='GObject.Object') if not o('no_parent') else None, ctype='FooObj',
+        parent = ast.Type(target_giname='GObject.Object') if not o('no_parent') else None
+        if o('parent_prefixns'):
+            parent = ast.Type(target_giname='FooDep.Obj')
+        c = ast.Class('Obj', parent, ctype='FooObj',
                       gtype_name='FooObj', get_type='foo_obj_get_type', c_symbol_prefix='obj',
                       is_abstract=o('abstract'), is_final=o('final'))
         if o('fundamental'):
@@ -640,6 +676,8 @@ def b_class(o, iface=False):
         if o('implements'):
             c.interfaces.append(ast.Type(target_giname='Foo.Iface'))
             c.interfaces.append(ast.Type(target_giname='Bar.Iface'))
+        if o('implements_prefixns'):
+            c.interfaces.append(ast.Type(target_giname='FooDep.Iface'))
         if o('constructor'):
             k = plain_func('new', 'foo_obj_new', ret=ast.Return(ast.Type(target_giname='Foo.Obj', ctype='FooObj*'), transfer='full'))
             k.is_constructor = True
@@ -1025,6 +1063,96 @@ def sink_case():
     return decls, comments, dump
 
 
+PREFIX_DEP_GIR = """<?xml version="1.0"?>
+<!-- Miniature hand-written dependency GIR for the verification harness (input, trusted base): a namespace
+     whose name has the scanned namespace's name "Foo" as a proper prefix. Generated by vt/checks/c07.py -->
+<repository version="1.2" xmlns="http://www.gtk.org/introspection/core/1.0" xmlns:c="http://www.gtk.org/introspection/c/1.0" xmlns:glib="http://www.gtk.org/introspection/glib/1.0">
+  <include name="GObject" version="2.0"/>
+  <namespace name="FooDep" version="1.0" shared-library="libfoodep.so.0" c:identifier-prefixes="FooDep" c:symbol-prefixes="foo_dep">
+    <callback name="Cb" c:type="FooDepCb">
+      <return-value transfer-ownership="none"><type name="none" c:type="void"/></return-value>
+      <parameters>
+        <parameter name="user_data" transfer-ownership="none" nullable="1" allow-none="1" closure="0"><type name="gpointer" c:type="gpointer"/></parameter>
+      </parameters>
+    </callback>
+    <enumeration name="E" c:type="FooDepE"><member name="a" value="0" c:identifier="FOO_DEP_E_A"/></enumeration>
+    <interface name="Iface" c:symbol-prefix="iface" c:type="FooDepIface" glib:type-name="FooDepIface" glib:get-type="foo_dep_iface_get_type"/>
+    <class name="Obj" c:symbol-prefix="obj" c:type="FooDepObj" parent="GObject.Object" glib:type-name="FooDepObj" glib:get-type="foo_dep_obj_get_type" glib:type-struct="ObjClass">
+      <field name="parent_instance"><type name="GObject.Object" c:type="GObject"/></field>
+    </class>
+    <record name="ObjClass" c:type="FooDepObjClass" glib:is-gtype-struct-for="Obj">
+      <field name="parent_class"><type name="GObject.ObjectClass" c:type="GObjectClass"/></field>
+    </record>
+    <record name="Thing" c:type="FooDepThing" glib:type-name="FooDepThing" glib:get-type="foo_dep_thing_get_type" c:symbol-prefix="thing">
+      <field name="x" writable="1"><type name="gint" c:type="int"/></field>
+    </record>
+  </namespace>
+</repository>
+"""
+
+
+def prefix_dep_dir():
+    """Directory holding FooDep-1.0.gir (written once under .build/, atomically)."""
+    from vt.core import ROOT
+    d = os.path.join(ROOT, '.build', 'c07deps')
+    p = os.path.join(d, 'FooDep-1.0.gir')
+    data = PREFIX_DEP_GIR.encode('utf-8')
+    try:
+        with open(p, 'rb') as f:
+            if f.read() == data:
+                return d
+    except OSError:
+        pass
+    os.makedirs(d, exist_ok=True)
+    tmp = '%s.%d.tmp' % (p, os.getpid())
+    with open(tmp, 'wb') as f:
+        f.write(data)
+    os.replace(tmp, p)
+    return d
+
+
+def prefix_ns_cases():
+    """Scanned namespace Foo that includes FooDep (a namespace whose name starts with "Foo") and refers to
+    FooDep types in every typed slot: the reference must stay qualified through write and re-read."""
+    g = c05gen
+    cases = []
+    class_head = g.CLASS_DECLS_HEAD + [g.GET_TYPE]
+    slots = {
+        'parameter': ([g.fn('foo_p', 'void', [('FooDepThing*', 't')])], [], None),
+        'return': ([g.fn('foo_r', 'const FooDepThing*', [])], [], None),
+        'out-parameter': ([g.fn('foo_o', 'void', [('FooDepThing**', 't')])], [g.blk('foo_o', params=[('t', '(out)', 't')])], None),
+        'field': ([g.td('FooS', 'struct _FooS'), g.st('_FooS', [['f', 'f', 'FooDepThing*'], ['f', 'e', 'FooDepE'], ['f', 'cb', 'FooDepCb']])], [], None),
+        'field-callback': ([g.td('FooS', 'struct _FooS'), g.st('_FooS', [['fcb', 'fcb', 'FooDepThing*', [['FooDepObj*', 'o']], False]])], [], None),
+        'alias': ([g.td('FooAl', 'FooDepThing')], [], None),
+        'callback': ([g.cb('FooCb', 'void', [('FooDepObj*', 'o'), ('FooDepE', 'e')])], [], None),
+        'list-element': ([g.fn('foo_l', 'void', [('GList*', 'l')])], [g.blk('foo_l', params=[('l', '(element-type FooDep.Thing)', 'l')])], None),
+        'array-element': ([g.fn('foo_a', 'void', [('FooDepThing**', 'a')])], [g.blk('foo_a', params=[('a', '(array zero-terminated=1)', 'a')])], None),
+        'map-element': ([g.fn('foo_h', 'void', [('GHashTable*', 'h')])], [g.blk('foo_h', params=[('h', '(element-type utf8 FooDep.Obj)', 'h')])], None),
+        'type-annotation': ([g.fn('foo_t', 'void', [('gpointer', 'p')])], [g.blk('foo_t', params=[('p', '(type FooDep.Obj)', 'p')])], None),
+        'method-of-own-record': ([g.td('FooObj', 'struct _FooObj'), g.fn('foo_obj_m', 'void', [('FooObj*', 'self'), ('FooDepThing*', 't')])], [], None),
+        'parent': (class_head + [g.st('_FooThingClass', [['f', 'parent_class', 'FooDepObjClass']])], [],
+                   '<?xml version="1.0"?><dump><class name="FooThing" get-type="foo_thing_get_type" parents="FooDepObj,GObject"/></dump>'),
+        'implements': (class_head + [g.st('_FooThingClass', [['f', 'parent_class', 'GObjectClass']])], [],
+                       '<?xml version="1.0"?><dump><class name="FooThing" get-type="foo_thing_get_type" parents="GObject">'
+                       '<implements name="FooDepIface"/></class></dump>'),
+        'property-signal': (class_head + [g.st('_FooThingClass', [['f', 'parent_class', 'GObjectClass']])], [],
+                            '<?xml version="1.0"?><dump><class name="FooThing" get-type="foo_thing_get_type" parents="GObject">'
+                            '<property name="obj" type="FooDepObj" flags="3"/><property name="thing" type="FooDepThing" flags="1"/>'
+                            '<signal name="sig" return="FooDepObj"><param type="FooThing"/><param type="FooDepThing"/></signal>'
+                            '</class></dump>'),
+        'prerequisite': ([g.td('FooIf', 'struct _FooIf'), g.td('FooIfInterface', 'struct _FooIfInterface'),
+                          g.st('_FooIfInterface', [['f', 'g_iface', 'GTypeInterface']]), g.fn('foo_if_get_type', 'GType', [])], [],
+                         '<?xml version="1.0"?><dump><interface name="FooIf" get-type="foo_if_get_type">'
+                         '<prerequisite name="FooDepObj"/><prerequisite name="FooDepIface"/></interface></dump>'),
+    }
+    for name in sorted(slots):
+        d, com, dump = slots[name]
+        cases.append({'part': 'P', 'decls': d + [g.fn('foo_other', 'void', [])], 'comments': com, 'dump': dump,
+                      'includes': ['Gio-2.0', 'FooDep-1.0'], 'prefixdep': True, 'expect_ref': 'FooDep.',
+                      'note': 'namespace Foo including FooDep: FooDep type as %s' % name})
+    return cases
+
+
 def extra_scan_cases():
     """Small scanned namespaces for node kinds the C05 generator does not produce: a boxed GType
     without a visible struct (glib:boxed) with constructor/method/static function, registered
@@ -1039,6 +1167,21 @@ def extra_scan_cases():
         d = base + [m for i, m in enumerate(members) if bits >> i & 1]
         cases.append({'part': 'X', 'decls': d, 'comments': [], 'dump': boxed_dump,
                       'note': 'glib:boxed with constructor/method/static function subset %d' % bits})
+    # numeric attributes with value 0 / 1: zero-length array member, (array fixed-size=0), length/closure/destroy index 0
+    cases.append({'part': 'X', 'decls': [g.td('FooZ', 'struct _FooZ'),
+                                         g.st('_FooZ', [['f', 'n', 'int'], ['fa', 'data', 'char', 0], ['fa', 'one', 'char', 1]])],
+                  'comments': [], 'dump': None, 'note': 'zero-length and one-element array members'})
+    for n in (0, 1):
+        cases.append({'part': 'X', 'decls': [g.fn('foo_z', 'int*', [('int*', 'a')])],
+                      'comments': [g.blk('foo_z', params=[('a', '(array fixed-size=%d)' % n, 'a')], ret=('(array fixed-size=%d)' % n, 'r'))],
+                      'dump': None, 'note': '(array fixed-size=%d) on parameter and return value' % n})
+    cases.append({'part': 'X', 'decls': [g.fn('foo_i', 'int*', [('int', 'n'), ('int*', 'a'), ('gpointer', 'data'), ('GDestroyNotify', 'd'),
+                                                               ('FooXCb', 'cb')]),
+                                         g.cb('FooXCb', 'void', [('gpointer', 'data')])],
+                  'comments': [g.blk('foo_i', params=[('a', '(array length=n)', 'a'), ('cb', '(closure data) (destroy d)', 'cb')],
+                                     ret=('(array length=n)', 'r')),
+                               g.blk('FooXCb', params=[('data', '(closure)', 'd')])],
+                  'dump': None, 'note': 'length index 0 on parameter and return, closure=0 in a callback'})
     for tag in ('Since: 1.2', 'Deprecated: 1.4: gone', 'Stability: Unstable', 'Since: 1.2: why'):
         for what, decl in (('FooAl', g.td('FooAl', 'int')), ('foo_f', g.fn('foo_f', 'void', [])),
                            ('FooCb', g.cb('FooCb', 'void', [])), ('FooRec', g.td('FooRec', 'struct _FooRec'))):
@@ -1048,10 +1191,11 @@ def extra_scan_cases():
     return cases
 
 
-def check_scanned(decls, comments, dump, includes):
+def check_scanned(decls, comments, dump, includes, prefixdep=False, expect_ref=None):
     """-> (status, err, xml)"""
     fake.number(decls)
-    r = scanrun.scan(decls, comments, includes=includes, dump=dump,
+    include_paths = [scanrun.DEPS, prefix_dep_dir()] if prefixdep else None
+    r = scanrun.scan(decls, comments, includes=includes, dump=dump, include_paths=include_paths,
                      shared_libraries=['libfoo.so.0'], c_includes=['foo.h'], packages=['foo-1.0'])
     if r.error is not None:
         return 'noscan', r.error, None
@@ -1064,6 +1208,9 @@ def check_scanned(decls, comments, dump, includes):
         return 'ok', 'reading back raised %s: %s' % (type(ex).__name__, ex), r.xml
     if e:
         return 'ok', 'model read back differs from the scanner\'s model: ' + e, r.xml
+    if expect_ref and expect_ref.encode() not in r.xml:
+        # prefix-namespace family: the model agreed, yet the file holds no qualified reference at all
+        return 'ok', 'the scanned GIR holds no reference starting with %r although the input uses one' % expect_ref, r.xml
     return 'ok', None, r.xml
 
 
@@ -1073,7 +1220,8 @@ def _work_scanned(chunk):
     for case in chunk:
         decls = [c05gen.build(s) for s in case['decls']]
         comments = [scanrun.comment(t, line=100 + 40 * i) for i, t in enumerate(case['comments'])]
-        status, err, xml = check_scanned(decls, comments, case.get('dump'), c05gen.INCLUDES)
+        status, err, xml = check_scanned(decls, comments, case.get('dump'), case.get('includes', c05gen.INCLUDES),
+                                         case.get('prefixdep', False), case.get('expect_ref'))
         part.add(evaluations=4, states=1, transitions=len(case['decls']), traces_validated_against_impl=1)
         if status == 'noscan':
             part.add(rejected=1)
@@ -1149,13 +1297,14 @@ def run(ctx):
     ctx.sample({'mode': 'scan', 'note': 'kitchen sink', 'element_kinds': sorted(tags)})
     if err:
         ctx.violation('scan:sink:%s' % _err_class(err), 'kitchen-sink namespace: %s' % err, {'mode': 'sink'})
-    scases = extra_scan_cases()
+    prefix_dep_dir()
+    scases = extra_scan_cases() + prefix_ns_cases()
     for name in 'ABCD':
         scases += c05gen.PARTS[name](tier)
     # parts B and C of the C05 generator differ mostly in declaration order: every 4th description of
     # part C (and of part B in the quick tier) is taken, in enumeration order
     sub = 'BC' if tier != 'thorough' else 'C'
-    scases = [c for i, c in enumerate(scases) if c['part'] not in sub or i % 4 == 0]
+    scases = [c for i, c in enumerate(scases) if c['part'] not in sub or i % 4 == 0]      # parts X and P are always complete
     ctx.cov['bounds']['scanned_namespaces'] = len(scases) + 1
     for r in pmap(_work_scanned, rotate(chunked(scases, 64), ctx.seed)):
         ctx.merge(r)
@@ -1207,7 +1356,8 @@ def replay(ctx, case):
         print(t)
     if case.get('dump'):
         print('runtime dump:', case['dump'])
-    status, err, xml = check_scanned(decls, comments, case.get('dump'), c05gen.INCLUDES)
+    status, err, xml = check_scanned(decls, comments, case.get('dump'), case.get('includes', c05gen.INCLUDES),
+                                     case.get('prefixdep', False), case.get('expect_ref'))
     if err and xml:
         text = xml.decode('utf-8')
         print(text[text.index('<namespace'):])
